@@ -62,11 +62,21 @@ VARIABLES lens, nc, shape,        \* scenario: flow length per data version, num
           ph,                     \* "noobj" | "idle" | "run"
           rc,                     \* recompute flag of each cache object
           L,                      \* in a run: the cache that feeds it (0: the source does)
+          eager,                  \* in a run: the pipeline is a Split branch - Split.run reads its input in
+                                  \* blocks before the branch runs, so the source is pulled (and may raise)
+                                  \* whatever the caches do; only the source is affected
           pos, out,               \* values delivered in this run
           pulled, wpre, wmid,     \* pulls from src, values handled by pre, by mid in this run
           h                       \* ghost: commands so far (hidden by VIEW; exported)
-vars == <<lens, nc, shape, ver, file, stored, intr, ph, rc, L, pos, out, pulled, wpre, wmid, h>>
-view == <<lens, nc, shape, ver, file, stored, intr, ph, rc, L, pos, out, pulled, wpre, wmid>>
+vars == <<lens, nc, shape, ver, file, stored, intr, ph, rc, L, eager, pos, out, pulled, wpre, wmid, h>>
+view == <<lens, nc, shape, ver, file, stored, intr, ph, rc, L, eager, pos, out, pulled, wpre, wmid>>
+\* forms of starting a run in which the pipeline is a branch of Split([...]) (core/split.py: the branches go
+\* through meta.alter_sequence when the Split is built)
+EagerForms == {"split"}
+\* (quick: "split", "source", the nested forms and consumer "abandon" are left to the random histories and to thorough)
+FormsQuick == {"seq", "source_calter", "seq_malter", "el_calter", "el_malter"}
+FormsAll == {"seq", "source", "seq_calter", "source_calter", "seq_malter", "source_malter", "el_calter", "el_malter",
+             "split", "seq_nested_calter", "seq_nested_malter"}
 
 MaxVer == Len(lens)
 F(v) == [i \in 1..lens[v] |-> 100 * v + i]
@@ -86,7 +96,7 @@ InitWith(lens0, nc0, shape0) ==
   /\ file = [c \in 1..nc0 |-> Absent] /\ stored = [c \in 1..nc0 |-> 0]
   /\ intr = [c \in 1..nc0 |-> FALSE]
   /\ ph = "noobj" /\ rc = [c \in 1..nc0 |-> FALSE]
-  /\ L = 0 /\ pos = 0 /\ out = <<>> /\ pulled = 0 /\ wpre = 0 /\ wmid = 0 /\ h = <<>>
+  /\ L = 0 /\ eager = FALSE /\ pos = 0 /\ out = <<>> /\ pulled = 0 /\ wpre = 0 /\ wmid = 0 /\ h = <<>>
 Init == \E l0 \in LenProfiles, sc \in Scenarios : InitWith(l0, sc[1], sc[2])
 ScenAll == {<<m, s>> : m \in {1, 2}, s \in ShapesFor(2)} \ {<<1, s>> : s \in {t \in ShapesFor(2) : t.mid}}
 \* quick: a cache first, last and next to the other one (no taps); every tap present
@@ -94,7 +104,7 @@ ScenQuick == {<<1, Shape(FALSE, FALSE, FALSE)>>, <<1, Shape(TRUE, FALSE, TRUE)>>
               <<2, Shape(FALSE, FALSE, FALSE)>>, <<2, Shape(TRUE, TRUE, TRUE)>>}
 
 Scenario == UNCHANGED <<lens, nc, shape>>
-RunVars == <<L, pos, out, pulled, wpre, wmid>>
+RunVars == <<L, eager, pos, out, pulled, wpre, wmid>>
 
 (***************************************************************************)
 (* Between runs.                                                           *)
@@ -117,7 +127,7 @@ ChangeData == /\ ph = "idle" /\ ver < MaxVer /\ ver' = ver + 1
 Loadable(c) == ~rc[c] /\ file[c].k # "A"
 LastLoadable == IF \E c \in 1..nc : Loadable(c) THEN CHOOSE c \in 1..nc : Loadable(c) /\ \A d \in 1..nc : Loadable(d) => d <= c
                 ELSE 0
-Start(form) == /\ ph = "idle" /\ ph' = "run" /\ L' = LastLoadable
+Start(form) == /\ ph = "idle" /\ ph' = "run" /\ L' = LastLoadable /\ eager' = (form \in EagerForms)
                /\ pos' = 0 /\ out' = <<>> /\ pulled' = 0 /\ wpre' = 0 /\ wmid' = 0
                /\ h' = Log(h, Cmd("start", form, rc, 0))
                /\ Scenario /\ UNCHANGED <<ver, file, stored, intr, rc>>
@@ -126,12 +136,12 @@ Cur == IF L = 0 THEN F(ver) ELSE file[L].c     \* the flow that feeds this run
 CurVer == IF L = 0 THEN ver ELSE stored[L]
 Broken == L > 0 /\ file[L].k = "B"
 Dumping(c) == c > L
-Active(site) == CASE site = "src" -> L = 0
+Active(site) == CASE site = "src" -> L = 0 \/ eager
                   [] site = "pre" -> L = 0 /\ shape.pre
                   [] site = "mid" -> L <= 1 /\ shape.mid
                   [] site = "post" -> shape.post
                   [] site = "pkl" -> L = 0       \* the source delivers a value the first cache cannot pickle
-EndRun == ph' = "idle" /\ L' = 0 /\ pos' = 0 /\ out' = <<>> /\ pulled' = 0 /\ wpre' = 0 /\ wmid' = 0
+EndRun == ph' = "idle" /\ L' = 0 /\ eager' = FALSE /\ pos' = 0 /\ out' = <<>> /\ pulled' = 0 /\ wpre' = 0 /\ wmid' = 0
 
 Deliver == /\ ph = "run" /\ ~Broken /\ pos < Len(Cur)
            /\ pos' = pos + 1 /\ out' = Append(out, Cur[pos + 1])
@@ -139,7 +149,7 @@ Deliver == /\ ph = "run" /\ ~Broken /\ pos < Len(Cur)
            /\ wpre' = wpre + (IF L = 0 /\ shape.pre THEN 1 ELSE 0)
            /\ wmid' = wmid + (IF L <= 1 /\ shape.mid THEN 1 ELSE 0)
            /\ h' = Log(h, Cmd("next", "", rc, 0))
-           /\ Scenario /\ UNCHANGED <<ver, file, stored, intr, ph, rc, L>>
+           /\ Scenario /\ UNCHANGED <<ver, file, stored, intr, ph, rc, L, eager>>
 
 Exhaust == /\ ph = "run" /\ ~Broken /\ pos = Len(Cur)
            /\ file' = [c \in 1..nc |-> IF Dumping(c) THEN Full(Cur) ELSE file[c]]
@@ -192,11 +202,12 @@ NoTruncated == \A c \in 1..nc : file[c].k = "F" => \E v \in 1..ver : file[c].c =
 \* ... namely the one of the last complete first run through it
 StoredIsLastComplete == \A c \in 1..nc : file[c].k = "F" => stored[c] \in 1..ver /\ file[c].c = F(stored[c])
 \* first run (and every run nothing can be loaded in): the flow passes unaltered
-FirstRunTransparent == (ph = "run" /\ L = 0) => out = SubSeq(F(ver), 1, pos) /\ pulled = pos
+FirstRunTransparent == (ph = "run" /\ L = 0) => out = SubSeq(F(ver), 1, pos) /\ (~eager => pulled = pos)
 \* later runs: exactly the stored values in the original order ...
 LoadIsStored == (ph = "run" /\ L > 0 /\ ~Broken) => out = SubSeq(F(stored[L]), 1, pos)
 \* ... without pulling from the source or running anything before the loaded cache
-LoadNoPull == (ph = "run" /\ L > 0) => pulled = 0 /\ wpre = 0 /\ (L = 2 => wmid = 0)
+\* (inside a Split the source is read by Split.run itself; the elements before the cache still do not run)
+LoadNoPull == (ph = "run" /\ L > 0) => (~eager => pulled = 0) /\ wpre = 0 /\ (L = 2 => wmid = 0)
 \* recompute=True and drop_cache() restore the first-run behaviour
 RestoreFirstRun == ph = "run" => \A c \in 1..nc : (rc[c] \/ file[c].k = "A") => L # c
 FirstRunWhenNothingLoadable == (ph = "run" /\ \A c \in 1..nc : rc[c] \/ file[c].k = "A") => L = 0
